@@ -500,3 +500,6 @@ T('c17-twin-pow2-sides-swapped', 'C17', 'grid.py', "    if 2**q != n:\n        r
 # P-marginal (C14): the marginal vectors of sample() are sums over the mode axis
 M('c14-marginal-mean', 'C14', 'sample.py', "        phi[i] = np.sum(Y[i], axis=1) @ phi[i+1]", "        phi[i] = np.mean(Y[i], axis=1) @ phi[i+1]")
 T('c14-twin-marginal-method-sum', 'C14', 'sample.py', "        phi[i] = np.sum(Y[i], axis=1) @ phi[i+1]", "        phi[i] = Y[i].sum(axis=1) @ phi[i+1]")
+# F-split (C02): the accuracy of truncate is divided by sqrt(d - 1)
+M('c02-split-sqrt-d', 'C02', 'transformation.py', "            Z, p = orthogonalize(Y, d-1), 0\n            e = e / np.sqrt(d-1) * np.linalg.norm(Z[-1])", "            Z, p = orthogonalize(Y, d-1), 0\n            e = e / np.sqrt(d) * np.linalg.norm(Z[-1])")
+T('c02-twin-split-len', 'C02', 'transformation.py', "            Z, p = orthogonalize(Y, d-1), 0\n            e = e / np.sqrt(d-1) * np.linalg.norm(Z[-1])", "            Z, p = orthogonalize(Y, d-1), 0\n            e = e / np.sqrt(len(Y) - 1) * np.linalg.norm(Z[-1])")
